@@ -442,10 +442,10 @@ func runTail(tl Tail, path string) (res tailResult) {
 			res.inconc = err.Error()
 			return
 		}
-		waitFor(before+1, 3*time.Second)
+		waitFor(before+1, 10*time.Second)
 		if nGot() == before {
 			cancel()
-			res.fail = "a line appended while the consumer was idle and the delivery queue empty was not delivered within 3 s (dropped although the client could keep up)"
+			res.fail = "a line appended while the consumer was idle and the delivery queue empty was not delivered within 10 s (dropped although the client could keep up)"
 			res.classes = append(res.classes, "queue=tiny")
 			return
 		}
